@@ -29,7 +29,7 @@ RECURSIVE RunSeq(_, _, _)
 RunSeq(s, perm, j) ==
   IF j > Len(perm) THEN s = Abs
   ELSE LET a == Apply(s, Job[perm[j]]) IN
-       a.res.cls = result[perm[j]] /\ RunSeq(a.st, perm, j + 1)
+       a.res.cls = result[perm[j]] /\ a.res.data = rdata[perm[j]] /\ RunSeq(a.st, perm, j + 1)
 
 InProgressOK(t) ==
   /\ Job[t].op = "store"
@@ -51,5 +51,5 @@ LinearizableOrK1 == AllDone => (Linearizable \/ K1Shape)
 StrictLinearizable == AllDone => Linearizable
 NoResidue == AllDone => mark = {}
 \* the event history variable does not influence behaviour: hide it from the fingerprint
-ViewNoEv == <<pc, obj, pref, cref, doc, mark, keep, locked, waitq, woken, result, stack, vtb_, vid_, vtb, vid, vp_, vc_t, va_, vb_, vout, vmade, vrp, vrl_, vp_s, vc_s, vx_, vc, vb_d, vx_d, vp_d, vc_, vcls, vrl, va, vb, vx, vdels, vdocs, vf_, vp, vtodo, vmarked, vf>>
+ViewNoEv == <<pc, obj, pref, cref, doc, mark, keep, locked, waitq, woken, result, rdata, stack, vtb_, vid_, vtb, vid, vp_, vc_t, va_, vb_, vout, vmade, vrp, vrl_, vp_s, vc_s, vx_, vc, vb_d, vx_d, vp_d, vc_, vcls, vrl, va, vb, vx_de, vdels, vdocs, vf_, vp_de, vtodo, vkeepl, vmarked, ve, vp_p, vf_p, vver, vp_g, vf_g, vx_g, vp_del, vf, vx, vp>>
 =============================================================================
